@@ -7,6 +7,19 @@ use crate::{c01, c15, c17, c18};
 use serde::Serialize;
 use std::hash::{Hash, Hasher};
 
+/// libfuzzer-sys installs a panic hook that aborts the process on *any* panic, including the ones the
+/// interpreters catch on purpose (documented rejections, panics inside third-party crates). Replace it once;
+/// real violations are reported by `fail`, which aborts explicitly.
+pub fn init() {
+    static ONCE: std::sync::Once = std::sync::Once::new();
+    ONCE.call_once(crate::engine::install_quiet_panic_hook);
+}
+
+pub fn fail(id: &str, f: &Failure) -> ! {
+    eprintln!("{id} violated: {}: {}", f.sig, f.msg);
+    std::process::abort()
+}
+
 struct Cur<'a> {
     d: &'a [u8],
     i: usize,
